@@ -12,12 +12,15 @@
 #include <stdlib.h>
 #include <string.h>
 
+#if defined(VERIF_TYPED_CALLOC) || defined(VERIF_TYPED_ACQUIRE)
+#    define VERIF_TYPED_RELEASE 1
+bool verif_typed_release(void *p);       /* harness: true if p came from a typed pool (then it is not passed to free) */
+#endif
 #ifdef VERIF_TYPED_CALLOC
 void *verif_typed_calloc(size_t size);   /* harness: typed zeroed object for this size, or NULL */
-bool verif_typed_release(void *p);       /* harness: true if p came from a typed pool (then it is not passed to free) */
-#    ifdef VERIF_TYPED_ACQUIRE_MANY
-void *verif_typed_acquire(size_t size);  /* harness: typed object with ARBITRARY contents (acquire_many does not zero), or NULL */
-#    endif
+#endif
+#if defined(VERIF_TYPED_ACQUIRE_MANY) || defined(VERIF_TYPED_ACQUIRE)
+void *verif_typed_acquire(size_t size);  /* harness: typed object with ARBITRARY contents (acquire does not zero), or NULL */
 #endif
 static struct aws_allocator s_verif_alloc; /* identity only; vtable unused */
 struct aws_allocator *verif_allocator(void) { return &s_verif_alloc; }
@@ -55,6 +58,9 @@ static void *verif_alloc_split(size_t size) {
 void *aws_mem_acquire(struct aws_allocator *allocator, size_t size) {
     ASSERT(allocator != NULL, "aws_mem_acquire: NULL allocator (library aborts)");
     ASSERT(size != 0, "aws_mem_acquire: size 0 (library aborts)");
+#ifdef VERIF_TYPED_ACQUIRE
+    { void *tp = verif_typed_acquire(size); if (tp) { vt_add(tp, size); return tp; } }
+#endif
     void *p = verif_alloc_split(size);
     vt_add(p, size);
     return p;
@@ -83,7 +89,7 @@ void aws_mem_release(struct aws_allocator *allocator, void *ptr) {
 #else
     if (ptr) {
         vt_del(ptr);
-#    ifdef VERIF_TYPED_CALLOC
+#    ifdef VERIF_TYPED_RELEASE
         if (verif_typed_release(ptr)) return;
 #    endif
         free(ptr);
@@ -94,11 +100,18 @@ int aws_mem_realloc(struct aws_allocator *allocator, void **ptr, size_t oldsize,
     ASSERT(allocator != NULL, "aws_mem_realloc: NULL allocator (library aborts)");
     if (newsize == 0) { aws_mem_release(allocator, *ptr); *ptr = NULL; return 0; }
     /* always moves: a fresh block, old contents copied, old block freed */
-    void *np = verif_malloc(newsize);
+    void *np = NULL;
+#ifdef VERIF_TYPED_ACQUIRE
+    np = verif_typed_acquire(newsize);
+#endif
+    if (!np) np = verif_malloc(newsize);
     if (*ptr) {
         memcpy(np, *ptr, oldsize < newsize ? oldsize : newsize);
         vt_del(*ptr);
-        free(*ptr);
+#ifdef VERIF_TYPED_RELEASE
+        if (!verif_typed_release(*ptr))
+#endif
+            free(*ptr);
     }
     vt_add(np, newsize);
     *ptr = np;
